@@ -2,8 +2,10 @@ package main
 
 import (
 	"fmt"
+	"runtime"
 	"strings"
 	"sync"
+	"sync/atomic"
 
 	"google.golang.org/grpc/grpclog"
 	"google.golang.org/grpc/internal/grpcsync"
@@ -148,6 +150,61 @@ func init() {
 		rc = grpcsync.NewRefCounted(42, func() { zeros++ })
 		grpcsync.VerifHook = s.hook
 		return func(f []string) string {
+			if f[0] == "cref" && len(f) == 3 {
+				// real parallelism: per round a fresh RefCounted (count 1); n goroutines leave a spin barrier
+				// together, each doing TryIncrement and, if that succeeded, Decrement; one more releases the
+				// creator's reference. Whatever the interleaving: cleanup exactly once, final count 0, and a
+				// TryIncrement afterwards fails.
+				n, rounds := atoi(f[1]), atoi(f[2])
+				if n < 1 || n > 64 || rounds < 1 {
+					return "bad-op"
+				}
+				saved := grpcsync.VerifHook
+				grpcsync.VerifHook = nil
+				defer func() { grpcsync.VerifHook = saved }()
+				if runtime.GOMAXPROCS(0) < 2 {
+					defer runtime.GOMAXPROCS(runtime.GOMAXPROCS(4))
+				}
+				bad, maxZeros, resurrected := 0, 0, 0
+				for r := 0; r < rounds; r++ {
+					var z, ready atomic.Int32
+					var start atomic.Bool
+					c := grpcsync.NewRefCounted(r, func() { z.Add(1) })
+					var wg sync.WaitGroup
+					for i := 0; i <= n; i++ {
+						wg.Add(1)
+						go func() {
+							defer wg.Done()
+							ready.Add(1)
+							// spin rather than block: all workers are on a CPU and leave the barrier within
+							// nanoseconds of each other
+							for !start.Load() {
+							}
+							if i == n {
+								c.Decrement()
+							} else if c.TryIncrement() {
+								c.Decrement()
+							}
+						}()
+					}
+					for ready.Load() != int32(n+1) {
+						runtime.Gosched()
+					}
+					start.Store(true)
+					wg.Wait()
+					zz := int(z.Load())
+					if zz != 1 || c.VerifCount() != 0 {
+						bad++
+					}
+					if zz > maxZeros {
+						maxZeros = zz
+					}
+					if c.TryIncrement() {
+						resurrected++
+					}
+				}
+				return fmt.Sprintf("rounds=%d bad=%d maxzeros=%d resurrected=%d", rounds, bad, maxZeros, resurrected)
+			}
 			if f[0] == "step" && len(f) == 2 && strings.ContainsRune("iad", rune(f[1][0])) {
 				label, ret := s.step(f[1])
 				return fmt.Sprintf("%s cnt=%d zeros=%d errs=%d ret=%s busy=%d", label, rc.VerifCount(), zeros, lg.errs, ret, s.busy())
